@@ -436,20 +436,83 @@ def r3_ctor_as_fn(body: Text):
     body.sub_code('R3', r'\.(map|map_err|and_then)\(\s*(Err|Ok|Some|Bytes::from)\s*\)', r'.\1(|e| \2(e))')
 
 
+def _cfg_unit_end(t, code, pos):
+    """end of the syntactic unit (statement / item / parameter / field / argument / match arm) that starts at pos"""
+    n = len(t)
+    while pos < n and (t[pos].isspace() or not code[pos]):
+        pos += 1
+    head = t[pos:pos + 12]
+    def block_end(p):
+        depth = 0
+        while p < n:
+            if code[p]:
+                if t[p] in '([':
+                    depth += 1
+                elif t[p] in ')]':
+                    depth -= 1
+                elif t[p] == '{' and depth == 0:
+                    return match_brace(t, code, p)
+                elif t[p] == ';' and depth == 0:
+                    return p + 1
+            p += 1
+        return n
+    if re.match(r'(if|match|for|while|loop|unsafe)\b', head) or head.startswith('{'):
+        e = block_end(pos)
+        while True:      # else chains
+            m = re.match(r'\s*else\b', t[e:])
+            if not m:
+                return e
+            e = block_end(e + m.end())
+    if re.match(r'(let)\b', head):
+        depth = 0
+        p = pos
+        while p < n:
+            if code[p]:
+                if t[p] in '([{':
+                    depth += 1
+                elif t[p] in ')]}':
+                    depth -= 1
+                elif t[p] == ';' and depth == 0:
+                    return p + 1
+            p += 1
+        return n
+    if re.match(r'(pub\b|fn\b|impl\b|struct\b|enum\b|mod\b|use\b|const\b|static\b|type\b)', head):
+        return block_end(pos)
+    # parameter / field / argument / match arm: up to and including the next top-level comma, or up to the closing delimiter
+    depth = 0
+    p = pos
+    while p < n:
+        if code[p]:
+            if t[p] in '([{':
+                depth += 1
+            elif t[p] in ')]}':
+                if depth == 0:
+                    return p
+                depth -= 1
+            elif t[p] == ',' and depth == 0:
+                return p + 1
+        p += 1
+    return n
+
+
 def r8_cfg(body: Text):
-    def repl(m):
-        feat = m.group(1)
-        if feat not in ENABLED_FEATURES:
-            raise Infra('cfg(feature = "%s") is outside the fixed configuration' % feat)
-        return ''
-    body.sub_code('R8', r'#\[cfg\(feature = "([\w-]+)"\)\]\s*', repl)
-    # any(feature=..., ...) with at least one enabled
-    def repl_any(m):
-        feats = re.findall(r'feature = "([\w-]+)"', m.group(0))
-        if not any(f in ENABLED_FEATURES for f in feats):
-            raise Infra('cfg(any(..)) outside the fixed configuration')
-        return ''
-    body.sub_code('R8', r'#\[cfg\(any\((?:feature = "[\w-]+",?\s*)+\)\)\]\s*', repl_any)
+    """R8: `#[cfg(feature = "F")]` (also `not(..)`, `any(..)`) is resolved against the fixed feature configuration: an attribute
+    that holds is dropped, one that does not hold is dropped together with the unit it guards"""
+    while True:
+        t = body.t
+        code = code_mask(t)
+        m = next((m for m in re.finditer(r'#\[cfg\((not\()?(any\()?((?:\s*feature = "[\w-]+",?\s*)+)\)?\)?\)\]\s*', t) if code[m.start()]), None)
+        if not m:
+            return
+        feats = re.findall(r'feature = "([\w-]+)"', m.group(3))
+        holds = any(f in ENABLED_FEATURES for f in feats)
+        if m.group(1):
+            holds = not holds
+        if holds:
+            body.edit('R8', m.start(), m.end(), '')
+        else:
+            end = _cfg_unit_end(t, code, m.end())
+            body.edit('R8', m.start(), end, '', 'configured out: %s' % m.group(0).strip())
 
 
 def r8_attrs_docs(text: Text):
@@ -1047,6 +1110,7 @@ class Unit:
         r5_mut_self(sig, body)
         r5_mut_params_async(sig, body)
         r1_name_result(sig)
+        r8_cfg(sig)
         r8_cfg(body)
         r4_closure_underscore(body)
         r3_ctor_as_fn(body)
@@ -1190,7 +1254,7 @@ class Unit:
                                    sha256=hashlib.sha256(src[m.start():end].encode()).hexdigest()))
         self._emit('#[allow(unused_macros)]\n' + src[m.start():end])
 
-    def exec_const(self, file, name, ensures, props=None, indent='    '):
+    def exec_const(self, file, name, ensures, props=None, indent='    ', edits=None):
         """R13: `const NAME: T = EXPR;` (an initialiser that calls exec const fns) becomes
         `exec const NAME: T ensures .. { EXPR }`; the ensures clauses are obligations like any other."""
         props = props or self.props
@@ -1201,6 +1265,9 @@ class Unit:
         m = re.match(r'\s*(pub(\([a-z]+\))?\s+)?const\s+', t.t)
         t.edit('R13', 0, m.end(), 'pub exec const ')
         t.sub_code('R16', r":\s*&str\b", ": &'static str")
+        t.sub_code('R16', r":\s*&\[u8\]", ": &'static [u8]")
+        for e in edits or []:
+            e(t)
         # `: TYPE = EXPR;`
         code = code_mask(t.t)
         eq = next(i for i, ch in enumerate(t.t) if ch == '=' and code[i] and t.t[i + 1] != '=' and t.t[i - 1] not in '=!<>')
